@@ -242,7 +242,7 @@ def exhaustive(res, length):
 def plan(tier):
     if tier == "quick":
         return [{"kind": "hyp", "n": 700, "len": 14}] * 14 + [{"kind": "exh", "len": 2}, {"kind": "exh", "len": 3}]
-    return [{"kind": "hyp", "n": 20000, "len": 20}] * 44 + [{"kind": "exh", "len": 3}, {"kind": "exh", "len": 4}]
+    return [{"kind": "hyp", "n": 12000, "len": 20}] * 44 + [{"kind": "exh", "len": 3}, {"kind": "exh", "len": 4}]
 
 
 def run_shard(spec, seed, res, only_bucket=None):
